@@ -772,6 +772,46 @@ def trims_frame(m, fn, _seen=None):
     return True
 
 
+def rule_limits_taken_unchanged(res, rid, m):
+    """The maximum frame size the encoder works with is the caller's: every write of the member takes
+    DataContext::maxBytesPerMessage of this call unchanged; a replacement value (a clamp, a fall-back default) is only
+    allowed under a guard that puts the caller's value outside the property's domain (max < 25 = both headers + 1 byte)."""
+    n = 0
+    lo = m.fb.record(CH)["size"] + m.fb.record(MH)["size"] + 1
+    for f, kind, node in m.writes.get(m.maxBytes, []):
+        n += 1
+        if kind != "assign":
+            res.bad(rid, "max:%s:%s" % (f.name.split("::")[-1], kind), node.get("loc") if isinstance(node, dict) else "",
+                    "the maximum frame size is modified by `%s` in %s" % (kind, f.name))
+            continue
+        r = strip_all_casts(node["r"])
+        from_ctx = r.get("k") == "member" and (r.get("rec") or "").endswith("DataContext") and r.get("name") == "maxBytesPerMessage" and \
+            strip_all_casts(r.get("base", {})).get("dk") == "param"
+        if from_ctx:
+            res.ok(rid, "max:%s:from-context" % f.name.split("::")[-1], node.get("loc"), "max := this call's DataContext::maxBytesPerMessage, unchanged")
+            continue
+        # a replacement: only for values outside the domain
+        fs = MustFacts(f).at(node)
+        outside = False
+        for a in fs:
+            if a[0] == "cmp":
+                for x, y, o in ((a[4], a[5], a[2]), (a[5], a[4], facts._flip_op(a[2]))):
+                    xs = strip_all_casts(x)
+                    is_max = (xs.get("k") == "member" and xs.get("field") == m.maxBytes) or \
+                        (xs.get("k") == "member" and xs.get("name") == "maxBytesPerMessage" and (xs.get("rec") or "").endswith("DataContext"))
+                    yv = const_value(y)
+                    if yv is None and strip_all_casts(y).get("k") == "ref":
+                        ds = facts.local_defs(f).get(strip_all_casts(y)["decl"], [])
+                        yv = const_value(ds[0]) if len(ds) == 1 else None
+                    if is_max and yv is not None and ((o == "<" and yv <= lo) or (o == "<=" and yv < lo)):
+                        outside = True
+        res.check(outside, rid, "max:%s:replaced" % f.name.split("::")[-1], node.get("loc"),
+                  "replacement value only for a maximum below %d bytes (outside the domain)" % lo,
+                  "%s replaces the caller's maximum frame size by `%s` for values the protocol allows (the smallest legal maximum is %d bytes): "
+                  "frames then exceed the configured maximum" % (f.name, canon(node["r"])[:60], lo))
+    return n
+
+
 def rule_free_count_writers(res, rid, m):
     """The free-byte count says how much of the *last* frame is unused; the trim before the next frame
     computes the used bytes from it.  So it may only change by: the opener's `max - sizeof(CmpHeader)`,
